@@ -204,4 +204,5 @@ var (
 	// UDPMuxDefault should not listen on unspecified address, but to keep backward compatibility, don't return error now.
 	// will be used in the future.
 	// errListenUnspecified             = errors.New("can't listen on unspecified address").
+	errStreamingPacketTooLarge = errors.New("packet too large for 16-bit streaming length field")
 )
